@@ -58,11 +58,8 @@ func init() {
 	reg("strings.Trim", func(a []value) value { return strings.Trim(s(a[0]), s(a[1])) })
 	reg("strings.Fields", func(a []value) value { return strSlice(strings.Fields(s(a[0]))) })
 	reg("strings.EqualFold", func(a []value) value { return strings.EqualFold(s(a[0]), s(a[1])) })
-	reg("strings.IndexByte", func(a []value) value { return int64(strings.IndexByte(s(a[0]), byte(i(a[1])))) })
 	reg("strings.IndexAny", func(a []value) value { return int64(strings.IndexAny(s(a[0]), s(a[1]))) })
-	reg("strings.IndexRune", func(a []value) value { return int64(strings.IndexRune(s(a[0]), rune(i(a[1])))) })
 	reg("strings.ContainsAny", func(a []value) value { return strings.ContainsAny(s(a[0]), s(a[1])) })
-	reg("strings.ContainsRune", func(a []value) value { return strings.ContainsRune(s(a[0]), rune(i(a[1]))) })
 	reg("strings.Replace", func(a []value) value { return strings.Replace(s(a[0]), s(a[1]), s(a[2]), int(i(a[3]))) })
 	reg("strings.SplitAfter", func(a []value) value { return strSlice(strings.SplitAfter(s(a[0]), s(a[1]))) })
 	reg("strings.Title", func(a []value) value { return strings.Title(s(a[0])) })
@@ -188,6 +185,20 @@ func init() {
 			intrinsics[name] = f
 		}
 	}
+	add("strings.IndexByte", func(m *machine, fr *frame, args []value) value {
+		return iIndex(m, fr, []value{args[0], string([]byte{byte(concreteInt(args[1], "strings.IndexByte byte"))})})
+	})
+	add("strings.IndexRune", func(m *machine, fr *frame, args []value) value {
+		return iIndex(m, fr, []value{args[0], string(rune(concreteInt(args[1], "strings.IndexRune rune")))})
+	})
+	add("strings.ContainsRune", func(m *machine, fr *frame, args []value) value {
+		needle := string(rune(concreteInt(args[1], "strings.ContainsRune rune")))
+		s, sc := strArg(args[0])
+		if sc {
+			return strings.Contains(s.S, needle)
+		}
+		return fromTerm(mkContains(s, mkStr(needle)))
+	})
 	add("strings.Cut", iCut)
 	add("strings.CutPrefix", iCutPrefix)
 	add("strings.CutSuffix", iCutSuffix)
@@ -203,4 +214,88 @@ func init() {
 	add("(*bytes.Buffer).WriteRune", iBuilderWriteRune)
 	add("(*bytes.Buffer).Reset", iBufferReset)
 	add("(*bytes.Buffer).Grow", noop)
+}
+
+func concreteInt(v value, what string) int64 {
+	switch x := v.(type) {
+	case int64:
+		return x
+	case int32:
+		return int64(x)
+	case uint8:
+		return int64(x)
+	case int:
+		return int64(x)
+	case *Term:
+		if x.Op == "ci" {
+			return x.I
+		}
+	}
+	panic(cut{what + " is symbolic"})
+}
+
+// bytesToTerm turns a []byte value with concrete elements into a string term.
+func bytesToTerm(v value) *Term {
+	sl, _ := v.([]value)
+	b := make([]byte, len(sl))
+	for i, e := range sl {
+		c, ok := e.(int64)
+		if !ok {
+			panic(cut{"[]byte with symbolic bytes written to a writer"})
+		}
+		b[i] = byte(c)
+	}
+	return mkStr(string(b))
+}
+
+func bytesValue(s string) []value {
+	b := make([]value, len(s))
+	for i := 0; i < len(s); i++ {
+		b[i] = int64(s[i])
+	}
+	return b
+}
+
+// (*bytes.Buffer).Next / Bytes / Write on the content-per-object model (concrete content).
+func iBufferNext(m *machine, fr *frame, args []value) value {
+	b := m.bufferOf(args[0].(*value))
+	n := concreteInt(args[1], "bytes.Buffer.Next count")
+	s, ok := (*b).(string)
+	if !ok {
+		panic(cut{"bytes.Buffer.Next on symbolic content"})
+	}
+	if n > int64(len(s)) {
+		n = int64(len(s))
+	}
+	*b = s[n:]
+	return bytesValue(s[:n])
+}
+
+func iBufferBytes(m *machine, fr *frame, args []value) value {
+	b := m.bufferOf(args[0].(*value))
+	s, ok := (*b).(string)
+	if !ok {
+		panic(cut{"bytes.Buffer.Bytes on symbolic content"})
+	}
+	return bytesValue(s)
+}
+
+func iBufferWrite(m *machine, fr *frame, args []value) value {
+	b := m.bufferOf(args[0].(*value))
+	t := bytesToTerm(args[1])
+	*b = fromTerm(mkConcat(toTerm(*b), t))
+	return tuple{fromTerm(mkLen(t)), iface{}}
+}
+
+func init() {
+	for name, f := range map[string]intrinsic{
+		"(*bytes.Buffer).Next":     iBufferNext,
+		"(*bytes.Buffer).Bytes":    iBufferBytes,
+		"(*bytes.Buffer).Write":    iBufferWrite,
+		"(*strings.Builder).Write": iBufferWrite,
+	} {
+		if _, exists := intrinsics[name]; !exists {
+			intrinsics[name] = f
+		}
+	}
 }
